@@ -599,6 +599,10 @@ func realProvers(r *vcore.Run) {
 				}
 			}
 		}
+		// ---- a narrow check among 300 wide ones (limb width > narrow width), dyadic fractions included
+		if j.k < 2 {
+			narrowProver(r, j.fc, kit, rng, []int{3, 1 + rng.IntN(7)}[j.k])
+		}
 		// ---- lookups
 		lsh := genLkShape(rng, []int{3, 8, 20}[j.k%3], j.k%3, 3, false, 1, false)
 		ls, err := compile(j.fc, kit.ccsFor, lsh.circuit())
